@@ -942,6 +942,8 @@ def path_eval(B, path):
         for p in pl.get('p') or []:
             if p == '*':
                 continue
+            if isinstance(p, dict) and 'dc' in p and e[0] == 'agg' and p.get('n') is not None and str(p.get('n')) == str(e[1]):
+                continue        # `(X::V(a) as V).0` on this path is a: the literal stays, the field projection that follows picks the operand
             if isinstance(p, dict) and ('n' in p or 'f' in p):
                 nm = p.get('n', str(p.get('f')))
                 if e[0] == 'bin' and e[1].endswith('WithOverflow'):
@@ -951,7 +953,10 @@ def path_eval(B, path):
                 else:
                     e = ('field', e, str(nm))
             elif isinstance(p, dict) and 'dc' in p:
-                e = ('field', e, 'as:' + str(p.get('dc')))
+                if e[0] == 'agg' and p.get('n') is not None and str(p.get('n')) == str(e[1]):
+                    pass        # `(X::V(a) as V).0` on this path is a: the literal stays, the field projection that follows picks the operand
+                else:
+                    e = ('field', e, 'as:' + str(p.get('dc')))
             else:
                 e = ('field', e, str(p))
         return e
